@@ -401,8 +401,8 @@ pub fn run(args: &Args) -> i32 {
         println!("VIOLATION property=C05 replay={path}");
         return EXIT_VIOLATION;
     }
-    let streams = args.tier.pick(2_500u64, 120_000);
-    let cstreams = args.tier.pick(2_500u64, 100_000);
+    let streams = args.tier.pick(12_000u64, 400_000);
+    let cstreams = args.tier.pick(12_000u64, 300_000);
     let mut ev = Evidence::new();
     for p in parallel(args.jobs, streams + cstreams, Evidence::new, |i, ev| {
         if i < streams {
@@ -422,8 +422,8 @@ pub fn run(args: &Args) -> i32 {
         ],
         exhaustive: None,
         floors: vec![
-            ("server_executions".into(), args.tier.pick(20_000, 1_000_000)),
-            ("client_executions".into(), args.tier.pick(10_000, 500_000)),
+            ("server_executions".into(), args.tier.pick(100_000, 3_000_000)),
+            ("client_executions".into(), args.tier.pick(60_000, 1_500_000)),
             ("executions_reaching_buffer_compaction".into(), args.tier.pick(1_000, 50_000)),
             ("malformed_headers_checked".into(), args.tier.pick(1_000, 50_000)),
         ],
